@@ -1043,7 +1043,7 @@ def run(ctx: core.Ctx):
         ctx.violation(f"real output violates C13: not invariant under [{mi2['representation']}]: {mi2['failure']}",
                       {"scenario": s2, "presentation": p2, "settings_canonical": settings_dict(s2, BASE_PRES), "settings_represented": settings_dict(s2, p2),
                        "detail": w2, "output_canonical": b, "output_represented": g}, kind="concrete", match_info=mi2)
-    if not concrete:
+    if not ctx.violations:  # no NEW concrete violation (none at all, or only ones a registered known finding describes)
         if broken:
             s, p, w = broken[0]
             ctx.violation("correspondence Blocking/Score models <-> predict() no longer checks under re-presentation",
